@@ -136,6 +136,8 @@ macro_rules! with_n {
             6 => $($f)*::<6>($($a),*),
             7 => $($f)*::<7>($($a),*),
             8 => $($f)*::<8>($($a),*),
+            16 => $($f)*::<16>($($a),*),
+            33 => $($f)*::<33>($($a),*),
             _ => panic!("unsupported capacity {}", $n),
         }
     };
